@@ -483,7 +483,7 @@ func ucHolds(keys []UKey, required uint64, sigs []types.Signature, msg types.Has
 }
 
 // refAccepts is the meaning of "the satisfied policy is accepted".
-func refAccepts(root *Node, sh *shape, height uint64, median int64, msg types.Hash256, sigs []types.Signature, pres [][32]byte) bool {
+func refAccepts(root *Node, sh *shape, height uint64, median, medianNanos int64, msg types.Hash256, sigs []types.Signature, pres [][32]byte) bool {
 	if hidden(root) {
 		return false
 	}
@@ -499,7 +499,9 @@ func refAccepts(root *Node, sh *shape, height uint64, median int64, msg types.Ha
 		}
 	}
 	for _, t := range sh.afters {
-		if !(median > t) {
+		// after(t): the median time is strictly later than t; the median carries a sub-second part when it is the
+		// midpoint of an even window, the lock is a whole second
+		if !(median > t || (median == t && medianNanos > 0)) {
 			return false
 		}
 	}
